@@ -134,3 +134,49 @@ func TestC15Rich(t *testing.T) {
 	}
 	vtx.Explore(t, tcp, r)
 }
+
+// TestC15Dual: a server with a UDP socket and a stream listener (one relay
+// address generator); c1 arrives over UDP, c2t over the stream (the lifecycle
+// callbacks name the client address only, so the two do not share one).
+// Server.Close releases everything of both listeners - also when one of the
+// configured sockets cannot be closed cleanly because the application has
+// closed it already (second configuration): the error is reported, the accepted
+// stream connections and their allocations are released all the same.
+func TestC15Dual(t *testing.T) {
+	r := rep.New("C15")
+	defer r.Write()
+	depth := 4
+	if rep.Thorough() {
+		depth = 5
+	}
+	cl := []string{"c1", "c2t"}
+	p := &vtx.Profile{
+		Name: "c15-udp-and-stream-listener", Configs: []vtx.Config{{Dual: true}, {Dual: true, AppClosedUDP: true}},
+		Clients: cl, Peers: []string{"A", "B"}, Chans: []uint16{prof.N1}, Depth: depth, Drain: true,
+		Resources: true, Lifecycle: true, Quiet2h: true,
+		Tags: map[string]bool{"resources": true, "lifecycle": true, "count": true},
+		Menu: func(m *vtx.Model, now time.Time, _ int) []vtx.Event {
+			if m.Closed {
+				return vtx.AdvanceMenu(m, now, nil, []time.Duration{time.Hour})
+			}
+			var e []vtx.Event
+			for _, c := range cl {
+				if m.Gone[c] {
+					continue
+				}
+				if m.Allocs[c] == nil {
+					e = append(e, prof.E("alloc", c, 0))
+				} else {
+					e = append(e, vtx.Event{K: "refresh", C: c, L: 0}, prof.E("perm", c, 0, "A"), prof.E("chan", c, prof.N1, "B"))
+				}
+				if c != "c1" {
+					e = append(e, vtx.Event{K: "close-control", C: c, L: -1})
+				}
+			}
+			e = append(e, vtx.Event{K: "close-server", L: -1})
+
+			return append(e, vtx.AdvanceMenu(m, now, []time.Duration{time.Nanosecond}, nil)...)
+		},
+	}
+	vtx.Explore(t, p, r)
+}
